@@ -355,6 +355,15 @@ def check(run):
         run.count("tight shells moved 10-25 bohr from the origin")
     for l in range(5 if quick else 8):
         right_matrix_case(run, rng, l)
+    # one-electron integrals of d / f pairs on two centres in general position (the horizontal recursions reach b_z >= 2 only there)
+    for k, ls in enumerate([(2, 2), (3, 2)] if quick else [(2, 2), (3, 2), (2, 3), (3, 3), (4, 2)]):
+        specs = [rand_shell(rng, ls[i], [], nprim=rng.randint(1, 2), nseg=1, exp_lo=0.2, exp_hi=8.0, sph=bool((i + k) % 2)) for i in range(2)]
+        general = [[0.35, -0.6, 0.85], [-0.75, 0.4, -0.2]]
+        specs = [s_.copy(center=general[i]) for i, s_ in enumerate(specs)]
+        env = pf.default_env(rng, specs)
+        motion_case(run, specs, env, cayley(rng), np.array([0.5, 0.25, -1.0]), "orthogonal+translation", names)
+        motion_case(run, specs, env, sp[(7 * k + 9) % len(sp)], np.zeros(3), "signed-permutation", names)
+        run.count("d / f shell pairs in general position")
     # repulsion integrals: angular momenta fixed so that every axis branch of the electron-transfer and horizontal recursions is
     # exercised (p and d shells on both electrons), centres in general position
     for k, ls in enumerate([(1, 1), (1, 2)] if quick else [(1, 1), (1, 2), (2, 1), (0, 2), (2, 2)]):
